@@ -18,6 +18,8 @@ pub struct Report {
     pub samples: Vec<J>,
     pub violations: BTreeMap<String, (u64, Violation)>,
     pub inconclusive: Vec<String>,
+    /// Small bitset for "seen" marks (e.g. opcode bytes); merged by OR.
+    pub marks: Vec<u64>,
 }
 
 pub fn hash_parts(parts: &[u64]) -> u64 {
@@ -50,6 +52,15 @@ impl Report {
         } else {
             self.counters.insert(key.to_string(), n);
         }
+    }
+    pub fn mark(&mut self, i: usize) {
+        if self.marks.len() <= i / 64 {
+            self.marks.resize(i / 64 + 1, 0);
+        }
+        self.marks[i / 64] |= 1 << (i % 64);
+    }
+    pub fn marks_in(&self, lo: usize, hi: usize) -> u64 {
+        (lo..hi).filter(|i| self.marks.get(i / 64).map(|w| w >> (i % 64) & 1 == 1).unwrap_or(false)).count() as u64
     }
     pub fn inc(&mut self, key: &str) {
         self.count(key, 1)
@@ -111,6 +122,12 @@ impl Report {
         }
         for i in o.inconclusive {
             self.inconclusive(i);
+        }
+        if self.marks.len() < o.marks.len() {
+            self.marks.resize(o.marks.len(), 0);
+        }
+        for (i, w) in o.marks.iter().enumerate() {
+            self.marks[i] |= *w;
         }
     }
 }
